@@ -349,7 +349,7 @@ func main() {
 					res.Count("grid_probe_not_reached=" + it.Ctx)
 					continue
 				}
-				fmt.Fprintf(&grid, "(%d, %d, %s, %s)\n", id, it.FnIndex, it.Ctx, obsToGobs(o.Probe))
+				fmt.Fprintf(&grid, "(%d%%N, %d, %s, %s)\n", id, it.FnIndex, it.Ctx, obsToGobs(o.Probe))
 				res.Count("grid:" + obsToGobs(o.Probe))
 				if !ctxSeen[it.Ctx] {
 					ctxSeen[it.Ctx] = true
@@ -369,7 +369,7 @@ func main() {
 					if o.Probe.DType != "" {
 						dt = "(Some " + o.Probe.DType + ")"
 					}
-					fmt.Fprintf(&ctxl, "(%d, %s, [%s], %s)\n", id, it.Ctx, strings.Join(ts, "; "), dt)
+					fmt.Fprintf(&ctxl, "(%d%%N, %s, [%s], %s)\n", id, it.Ctx, strings.Join(ts, "; "), dt)
 				}
 			case "nearvalid":
 				if o.Outcome != "accepted" && o.Outcome != "rejected" {
@@ -378,8 +378,8 @@ func main() {
 				p := newProj(it.Design, it.Mut.extraReq())
 				term, _ := p.coqDesign()
 				covered := it.Mut.Covered
-				if it.Mut.Kind == "none" && o.Outcome == "rejected" {
-					// an unmutated random design that goa rejects: the generator left its envelope.
+				if it.Mut.Expect == "accept" && o.Outcome == "rejected" {
+					// a random design meant to be valid that goa rejects: the generator left its envelope.
 					// If none of the reported errors is of a modelled kind the case says nothing
 					// about the model (counted; checks/c12.py refuses more than a handful).
 					res.Count("base_design_rejected")
@@ -388,7 +388,7 @@ func main() {
 						res.Count("base_design_rejected_unmodelled_kind")
 					}
 				}
-				fmt.Fprintf(&ref, "(%d, %s, %s, %s, %s)\n", id, term, vh.CoqBool(covered), vh.CoqBool(o.Outcome == "accepted"), p.coqErrs(r.Parsed))
+				fmt.Fprintf(&ref, "(%d%%N, %s, %s, %s, %s)\n", id, term, vh.CoqBool(covered), vh.CoqBool(o.Outcome == "accepted"), p.coqErrs(r.Parsed))
 			}
 			if id%331 == 7 {
 				res.Sample(map[string]any{"item": it, "observed": o}, 6)
